@@ -39,11 +39,13 @@ Definition judge (q : quirks) (cmd : string) (chain : list level) (proj_depth : 
   let fs := map (fun j => {| f_given := j_given j; f_lang := j_lang j; f_raw := j_raw j |}) files in
   let ss := map (fun j => {| s_rel := j_rel j; s_lang := j_lang j; s_raw := j_raw j |}) files in
   let impl := map j_impl files in
-  let spec := spec_result root_pats sg configured ss in
+  let is_dry := String.eqb cmd "dry" in
+  let spec := if is_dry then dry_spec root_pats sg configured ss else spec_result root_pats sg configured ss in
+  let run := fun c => if is_dry then dry_result c e sg configured fs else run_result c e sg configured fs in
   (match find_sig cmd with Some _ => true | None => false end && (find_root_len root_markers chain =? proj_depth))
   :: same impl spec
-  :: same (run_result ideal e sg configured fs) spec
-  :: map (fun c => same impl (run_result c e sg configured fs)) (candidates q).
+  :: same (run ideal) spec
+  :: map (fun c => same impl (run c)) (candidates q).
 
 (* unit-level: root detection alone *)
 Definition judge_root (chain : list level) (impl_len : nat) : bool := find_root_len root_markers chain =? impl_len.
